@@ -13,7 +13,7 @@ from fractions import Fraction as F
 import numpy as np
 import astropy.units as u
 
-from pbmc import bind_repo, report, factory
+from pbmc import bind_repo, report, factory, history
 from pbmc.exact import time_days as T, hz, ULP_T, unit_scale
 from pbmc.oracles import dft
 
@@ -239,6 +239,10 @@ def check_case(case):
     zg_m = make_signal(N, dtype, ss, g.astype(dtype), rate="1MHz")
     Xg = np.asarray(zg.data)
 
+    if N >= 4:
+        history.reuse_buffer(res, case, zg, [("time_shift 1.25", lambda q: pb.time_shift(q, 1.25)),
+                                             ("time_shift -2 crop", lambda q: pb.time_shift(q, -2, crop=True)),
+                                             ("time_shift 0.5 ms", lambda q: pb.time_shift(q, 62.5 * u.ms))], "time_shift")
     for shp in shift_shapes(ss):
         for name, val in fillings(N, shp):
             sub = {"shift_shape": None if shp is None else list(shp), "fill": name}
@@ -479,7 +483,7 @@ def check_call_block(res, case, z, Xof, shift_arg, svals, ss, sub, crop_pair, to
 def main(argv=None):
     return report.run_check(
         PID, gen_cases=gen_cases, check_case=check_case, describe=describe,
-        required_hits=["zero-fill rows checked", "length-1 shift axis broadcast over a longer sample axis",
+        required_hits=["buffer overwritten between calls", "zero-fill rows checked", "length-1 shift axis broadcast over a longer sample axis",
                        "shift array with fewer axes than the sample shape", "|s| >= N (all zero)", "crop to empty",
                        "mixed-sign crop", "time Quantity shift", "Quantity unit not reciprocal to the rate unit", "negative zero in a shift array", "argument forms", "long signal, large shift", "long signal, Quantity shift slightly off a whole sample", "too many dims rejected",
                        "complex even-N fractional (two Nyquist conventions accepted)",
